@@ -15,6 +15,7 @@ import (
 	"github.com/resonatehq/resonate/internal/kernel/t_aio"
 	"github.com/resonatehq/resonate/internal/kernel/t_api"
 	"github.com/resonatehq/resonate/internal/util"
+	"github.com/resonatehq/resonate/internal/verifhook"
 )
 
 type Config struct {
@@ -92,9 +93,11 @@ func (s *System) Loop() error {
 		s.Tick(time.Now().UnixMilli())
 
 		// complete shutdown if done
+		verifhook.At("loop.ticked")
 		if s.Done() {
 			s.aio.Shutdown()
 			s.scheduler.Shutdown()
+			verifhook.At("loop.exit")
 			return nil
 		}
 
